@@ -7,6 +7,7 @@ import (
 	"path/filepath"
 	"strings"
 	"sync"
+	"sync/atomic"
 	"syscall"
 	"time"
 
@@ -67,11 +68,16 @@ func runC13fifo(run *mc.Run) int {
 	n := 0
 	var samples []any
 	lat := map[string]float64{}
-	for _, which := range []string{"syslog-ingester", "auditlog-ingester"} {
-		for _, state := range []string{"waiting-for-writer", "idle-open-pipe", "partial-record-buffered", "after-some-records", "idle-after-slow-handoff", "idle-after-the-writer-was-replaced", "blocked-handing-over-downstream", "waiting-for-writer-path-removed", "waiting-for-writer-path-recreated", "event-write-in-progress", "huge-partial-record-buffered", "writer-stays-busy"} {
-			n++
+	type cellOut struct {
+		name, msg string
+		lat       float64
+	}
+	var fifoSeq int64
+	runCell := func(which, state string) (res cellOut, skipped bool) {
+		{
 			name := which + "/" + state
-			path := filepath.Join(dir, fmt.Sprintf("c13-%d", n))
+			res.name = name
+			path := filepath.Join(dir, fmt.Sprintf("c13-%d", atomic.AddInt64(&fifoSeq, 1)))
 			_ = os.Remove(path)
 			if err := syscall.Mkfifo(path, 0o600); err != nil {
 				panic(err)
@@ -81,14 +87,13 @@ func runC13fifo(run *mc.Run) int {
 			out := &sink{}
 			if state == "event-write-in-progress" {
 				if which != "syslog-ingester" {
-					n--
-					continue // only the sshd side writes events itself
+					return res, true // only the sshd side writes events itself
 				}
 				out.slow, out.entered = 400*time.Millisecond, make(chan struct{}, 1)
 			}
 			auditCh := make(chan string, 100)
 			logins := make(chan common.RemoteUserLogin, 100)
-			if state == "idle-after-slow-handoff" || state == "blocked-handing-over-downstream" {
+			if state == "idle-after-slow-handoff" || state == "blocked-handing-over-downstream" || state == "blocked-again-after-a-long-stall" {
 				// downstream accepts nothing for a while (back-pressure), then drains: afterwards the worker is
 				// idle on an open pipe again and must still stop on cancellation
 				auditCh = make(chan string)
@@ -185,6 +190,18 @@ func runC13fifo(run *mc.Run) int {
 							time.Sleep(time.Millisecond)
 						}
 					}
+				case "blocked-again-after-a-long-stall":
+					// downstream takes nothing for 5.5 s (longer than any "this is taking long" threshold a worker
+					// might have), then takes one hand-off, then nothing again: the worker is parked inside its
+					// callback for the second time when the cancellation comes
+					_, _ = w.WriteString("77 Accepted password for a from 1.2.3.4 port 22 ssh2\n78 Accepted password for b from 1.2.3.4 port 22 ssh2\n79 Accepted password for c from 1.2.3.4 port 22 ssh2\n")
+					time.Sleep(5500 * time.Millisecond)
+					select {
+					case <-auditCh:
+					case <-logins:
+					case <-time.After(5 * time.Second):
+					}
+					time.Sleep(100 * time.Millisecond)
 				case "blocked-handing-over-downstream":
 					// downstream never takes anything: the worker is parked inside its callback (login hand-off to an
 					// unready correlator / record hand-off into a full channel) when the cancellation comes, and the
@@ -217,7 +234,7 @@ func runC13fifo(run *mc.Run) int {
 			cancel()
 			select {
 			case <-done:
-				lat[name] = time.Since(t0).Seconds()
+				res.lat = time.Since(t0).Seconds()
 			case <-time.After(bound):
 				msg = fmt.Sprintf("did not return within %v after its context was cancelled", bound)
 			}
@@ -240,14 +257,37 @@ func runC13fifo(run *mc.Run) int {
 				}
 			}
 			os.Remove(path)
-			samples = append(samples, fmt.Sprintf("%s: returned after %.4fs", name, lat[name]))
-			if msg != "" {
-				run.Violation("C13:fifo:"+name, map[string]any{"cell": name}, name+": "+msg)
+			res.msg = msg
+			return res, false
+		}
+	}
+	record := func(res cellOut) {
+		n++
+		lat[res.name] = res.lat
+		samples = append(samples, fmt.Sprintf("%s: returned after %.4fs", res.name, res.lat))
+		if res.msg != "" {
+			run.Violation("C13:fifo:"+res.name, map[string]any{"cell": res.name}, res.name+": "+res.msg)
+		}
+	}
+	// the two cells that need 5.5 s of real time run next to the others
+	long := make(chan cellOut, 2)
+	for _, which := range []string{"syslog-ingester", "auditlog-ingester"} {
+		go func(which string) {
+			res, _ := runCell(which, "blocked-again-after-a-long-stall")
+			long <- res
+		}(which)
+	}
+	for _, which := range []string{"syslog-ingester", "auditlog-ingester"} {
+		for _, state := range []string{"waiting-for-writer", "idle-open-pipe", "partial-record-buffered", "after-some-records", "idle-after-slow-handoff", "idle-after-the-writer-was-replaced", "blocked-handing-over-downstream", "waiting-for-writer-path-removed", "waiting-for-writer-path-recreated", "event-write-in-progress", "huge-partial-record-buffered", "writer-stays-busy"} {
+			if res, skipped := runCell(which, state); !skipped {
+				record(res)
 			}
 		}
 	}
+	record(<-long)
+	record(<-long)
 	cov := mc.Coverage{Level: "fault_enumeration", Evaluations: n, Distinct: n, Exhaustive: true, Samples: samples,
-		Rule:  "cancellation injected into SyslogIngester.Ingest and AuditLogIngester.Ingest on real FIFOs in each blocking state: waiting for a writer to open the pipe, blocked reading an idle open pipe, holding a partial record (a short one; 1.25 MiB), idle after some records, idle after a back-pressure episode in which downstream accepted nothing for 1.5 s (thorough 6 s), idle after the first writer left and a second one connected (if the worker serves it), parked inside the callback because downstream (correlator / record channel) never takes the hand-off, in the middle of a 400 ms event write, while the writer keeps producing a record every 5 ms; the worker must return within the bound and deliver nothing afterwards. distinct_nontrivial = cells (all are blocking states)",
+		Rule:  "cancellation injected into SyslogIngester.Ingest and AuditLogIngester.Ingest on real FIFOs in each blocking state: waiting for a writer to open the pipe, blocked reading an idle open pipe, holding a partial record (a short one; 1.25 MiB), idle after some records, idle after a back-pressure episode in which downstream accepted nothing for 1.5 s (thorough 6 s), idle after the first writer left and a second one connected (if the worker serves it), parked inside the callback because downstream (correlator / record channel) never takes the hand-off, parked there for the second time after a first stall of 5.5 s had ended, in the middle of a 400 ms event write, while the writer keeps producing a record every 5 ms; the worker must return within the bound and deliver nothing afterwards. distinct_nontrivial = cells (all are blocking states)",
 		Extra: map[string]any{"bound_s": bound.Seconds(), "latency_s": lat}}
 	cov.Assumptions = []string{"real time: the bound (5 s) is three orders of magnitude above observed latencies; the OS scheduler is not controlled"}
 	return run.Finish(cov)
